@@ -27,7 +27,7 @@ class C13(Prop):
     check_module = "Moc.Check.C13Check"
     harness_bin = "term"
     harness_sub = "c13"
-    sizes = {"quick": 600, "thorough": 6000}
+    sizes = {"quick": 600, "thorough": 30000}
     widen_rounds = 1
     max_reports = 3
     widen_factor = 2
